@@ -24,6 +24,7 @@ DEFECTS = {
                                                          "cmd121:unauth:reached-client", "cmd121:nonparty:reached-client"]),
     "notify": ("fixes/C11-c2c-notify-unauthenticated.diff", ["cmd102:unauth:notify-sender"]),
     "dnsresp": ("fixes/C11-dns-answer-from-target-only.diff", ["cmd120-resp:any-connection-answers", "cmd121-resp:any-connection-answers"]),
+    "dnsdef": ("fixes/C11-dns-default-target-listen-check.diff", ["cmd120:nonparty:reached-default-target", "cmd121:nonparty:reached-default-target"]),
 }
 
 # the fixed world of the systematic sweep: clients 1..4 (4 is offline); client 0 = "no client"
@@ -54,9 +55,12 @@ def step(conn, who, cmd, **kw):
     return s
 
 
-def event(ev, ci, as_=0):
-    """a registry event between commands: connection #ci re-authenticates as client #as_ / leaves the registry"""
-    return {"ev": ev, "ci": ci, "as": as_, "conn": "", "who": 0, "cmd": 0, "claim": 0}
+def event(ev, ci=0, as_=0, obj=0):
+    """an event between commands.  Registry: connection #ci re-authenticates as client #as_ ("reauth") / leaves the registry
+    ("remove").  Store, behind the commands' back: mapping #obj deleted ("delmap"), its listen (ci=0) / target (ci=1) client
+    rewritten to client #as_ without touching the per-client indexes ("setparty": MigrateClientMappings), its status set
+    active (as_=1) / inactive (as_=0) ("setactive")"""
+    return {"ev": ev, "ci": ci, "as": as_, "obj": obj, "conn": "", "who": 0, "cmd": 0, "claim": 0}
 
 
 def variants(cmd):
@@ -70,7 +74,7 @@ def variants(cmd):
     if cmd in (DNS_RESOLVE, DNS_QUERY, NOTIFY):
         return [{"tgt": t} for t in (0, 1, 2, 3, 4, -1)]
     if cmd == MAP_LIST:
-        return [{"dir": d} for d in (0, 1, 2)]
+        return [{"dir": d} for d in (0, 1, 2, 3, 4)]       # "", outbound, inbound, an unknown value, field absent
     if cmd in (CODE_GEN, DOM_CHECK, DOM_GEN, DOM_CREATE):
         return [{"valid": True}, {"valid": False}]
     return [{}]
@@ -151,6 +155,11 @@ def random_cases(rng, n, handled):
         alive = set(i + 1 for i, o in enumerate(w["online"]) if o)
         bound = dict((i, i) for i in alive)       # long-lived connection -> client it is registered as
         for _ in range(rng.randrange(4, 16)):
+            if nm and rng.random() < 0.08:
+                # the store changes behind the commands' back
+                kind = rng.choice(["delmap", "setactive", "setparty", "setparty"])
+                steps.append(event(kind, obj=rng.randrange(nm), ci=rng.randrange(2), as_=rng.randrange(0 if kind == "setactive" else 1, 2 if kind == "setactive" else nc + 1)))
+                continue
             if rng.random() < 0.12:
                 # the identity of a connection changes between commands (never two connections for one client: C07's business)
                 ci = rng.randrange(1, nc + 1)
@@ -392,6 +401,38 @@ def fault_in_model(case, out):
     return True
 
 
+def authz_change_cases():
+    """command; an authorisation-relevant change of the store or the registry; the same command again — by the former party, the
+    other party, the new party and a stranger.  Covers stale per-client index entries (party rewritten after indexing), dangling
+    ones (record changed, then deleted: the index entry cannot be removed any more), deactivated mappings, logout / login."""
+    changes = {
+        "delete": [event("delmap", obj=0)],
+        "traffic-then-delete": [step("auth", 1, TRAFFIC, obj=0, sent=3, recv=4), event("delmap", obj=0)],
+        "deactivate": [event("setactive", obj=0, as_=0)],
+        "deactivate-reactivate": [event("setactive", obj=0, as_=0), event("setactive", obj=0, as_=1)],
+        "listen-handed-to-3": [event("setparty", obj=0, ci=0, as_=3)],
+        "target-handed-to-3": [event("setparty", obj=0, ci=1, as_=3)],
+        "listen-handed-to-3-and-back": [event("setparty", obj=0, ci=0, as_=3), event("setparty", obj=0, ci=0, as_=1)],
+        "target-logs-out": [event("remove", 2)],
+        "target-logs-out-and-in": [event("remove", 2), event("reauth", 2, 2)],
+        "listen-relogin-as-4": [event("remove", 1), event("reauth", 1, 4)],
+    }
+    probes = [(DNS_QUERY, {"tgt": 0}), (DNS_RESOLVE, {"tgt": 0}), (DNS_QUERY, {"tgt": 2}), (DNS_RESOLVE, {"tgt": 3}), (SOCKS, {"obj": 0}),
+              (TRAFFIC, {"obj": 0, "sent": 7, "recv": 7}), (MAP_GET, {"obj": 0}), (CONFIG_GET, {}), (NOTIFY, {"tgt": 2})] \
+        + [(MAP_LIST, {"dir": d}) for d in (0, 1, 2, 3, 4)]
+    senders = [1, 2, 3]
+    cases = []
+    for name, evs in changes.items():
+        for half in (probes[:7], probes[7:]):
+            before = [step("auth", w, cmd, **kw) for cmd, kw in half for w in (1, 2)]
+            after = [step("auth", w, cmd, claim=1 if (i + w) % 4 == 0 else 0, **kw) for i, (cmd, kw) in enumerate(half) for w in senders]
+            world = copy.deepcopy(WORLD)
+            world["mappings"][2]["proto"] = "tcp"   # one SOCKS mapping per index: the as-found default target walks a Go map
+            cases.append(dict(world, mode="case", aux=True, tag="authz:" + name,
+                              steps=copy.deepcopy(before) + copy.deepcopy(evs) + after + [step("auth", 1, MAP_DEL, obj=0), step("auth", 3, MAP_DEL, obj=0)]))
+    return cases
+
+
 def answer_cases():
     """a forwarded DNS request answered on another client's / an unknown connection (recorded finding)"""
     out = []
@@ -417,6 +458,8 @@ DETECT = dict(copy.deepcopy(WORLD), mode="case", aux=True, tag="detect", steps=[
     step("auth", 3, DNS_RESOLVE, tgt=2),                    # client 3 has no mapping towards client 2
     step("pending", 1, NOTIFY, tgt=2),
     step("auth", 1, DNS_RESOLVE, tgt=2, ans=3),            # client 3 answers the request that was forwarded to client 2
+    event("setparty", obj=0, ci=0, as_=3),                 # mapping #0 handed to client 3: client 1's index entry is stale
+    step("auth", 1, DNS_QUERY, tgt=0),                     # default target of the former listen client
 ])
 
 
@@ -426,7 +469,7 @@ def detect_flags(binary):
         raise vlib.Broken("C11 harness world setup failed", o["setup_err"])
     st = o["steps"]
     return {"socks": not st[0]["deliveries"], "traffic": st[1]["mappings"] == o["init"]["mappings"],
-            "dns": not st[2]["deliveries"], "notify": not st[3]["deliveries"], "dnsresp": not st[4]["spoofed"]}
+            "dns": not st[2]["deliveries"], "notify": not st[3]["deliveries"], "dnsresp": not st[4]["spoofed"], "dnsdef": not st[6]["deliveries"]}
 
 
 def case_value(case, out, flags):
@@ -435,15 +478,24 @@ def case_value(case, out, flags):
     for i, m in enumerate(case["mappings"]):
         socks[i] = m["proto"] == "socks"
     init = out["init"]
-    world = [[[m[0], m[1], m[2], socks.get(m[0], False), m[3], m[4]] for m in init["mappings"]],
+    index = [[c, m[0]] for m in init["mappings"] for c in dict.fromkeys((m[1], m[2])) if c]
+    world = [[[m[0], m[1], m[2], socks.get(m[0], False), m[3], m[4], m[5]] for m in init["mappings"]],
              [list(c) for c in init["codes"]], [list(d) for d in init["domains"]], list(init["online"]), [list(b) for b in init["bind"]],
-             bool(case.get("xnode")), [i + 1 for i, r in enumerate(case.get("remote") or []) if r and case.get("xnode")]]
+             bool(case.get("xnode")), [i + 1 for i, r in enumerate(case.get("remote") or []) if r and case.get("xnode")], index]
     seen = {"m": len(init["mappings"]), "c": len(init["codes"]), "d": len(init["domains"])}
     steps = []
     for s, o in zip(case["steps"], out["steps"]):
         obs = [o["ok"], o["mappings"], o["codes"], o["domains"], o["online"], o["disc_m"], o["disc_c"], o["disc_d"], o["deliveries"], o["bind"]]
         if s.get("ev"):
-            steps.append([4 if s["ev"] == "reauth" else 5, s["ci"], s["as"], 0, None, None, 0, 0, 0, 0, 0, obs])
+            code = {"reauth": 4, "remove": 5, "delmap": 6, "setparty": 7, "setactive": 8}[s["ev"]]
+            a, b, c3 = s["ci"], s["as"], 0
+            if code == 6:
+                a, b = s["obj"], 0
+            elif code == 7:
+                a, b, c3 = s["obj"], s["ci"], s["as"]
+            elif code == 8:
+                a, b = s["obj"], s["as"]
+            steps.append([code, a, b, c3, None, None, 0, 0, 0, 0, 0, obs])
             continue
         kind = "c" if s["cmd"] == CODE_ACT else "d" if s["cmd"] == DOM_DEL else "m"
         if s["obj"] == -2:
@@ -459,7 +511,7 @@ def case_value(case, out, flags):
         for key, rows in (("m", o["mappings"]), ("c", o["codes"]), ("d", o["domains"])):
             for r in rows:
                 seen[key] = max(seen[key], r[0] + 1)
-    return [[flags["socks"], flags["traffic"], flags["dns"], flags["notify"], bool(case.get("aux"))], world, steps]
+    return [[flags["socks"], flags["traffic"], flags["dns"], flags["notify"], bool(case.get("aux")), flags["dnsdef"]], world, steps]
 
 
 def project(o):
@@ -477,7 +529,7 @@ def honest_twin(case):
 def twin_wanted(c):
     if any(s.get("fault", 0) > 0 for s in c["steps"]):
         return False      # which call is the k-th depends on map iteration order inside the services: two runs need not fail at the same place
-    return (c.get("tag") in ("sweep", "random", "corpus", "xnode") or c.get("tag", "").startswith("history")) and any(s["claim"] for s in c["steps"])
+    return (c.get("tag") in ("sweep", "random", "corpus", "xnode") or c.get("tag", "").startswith("authz") or c.get("tag", "").startswith("history")) and any(s["claim"] for s in c["steps"])
 
 
 def load_corpus():
@@ -533,6 +585,7 @@ def run(ctx, only_cases=None):
         cases += unhandled_cases(ctx.rng, handled, 72 if thorough else 24)
         cases += history_cases(handled, [NOTIFY])
         cases += xnode_cases()
+        cases += authz_change_cases()
         cases += answer_cases()
         cases += random_cases(ctx.rng, 2500 if thorough else 250, [h for h in HANDLED])
     pend = [c for c in cases if c.get("mode") == "pending"] + (pending_cases() if only_cases is None else [])
